@@ -367,7 +367,7 @@ def replay_impl(t, charsub, reserved, history, sp, limit=1.5, spec=None, armed=F
                 results.append(r)
             dump, passes = impl_dump(fn)
     except (core.Timeout, _CpuTimeout):
-        if limit < 10:
+        if limit < 8.0 and _NTIMEOUTS[0] < 5:
             # confirm with a generous limit before calling it non-termination
             return replay_impl(t, charsub, reserved, history, sp, limit=8.0, spec=spec, armed=armed,
                                init=init)
